@@ -112,6 +112,23 @@ def call_name(run: Any, name: str, n: ast.Call) -> Any:
         raise Unsupported('len of %s' % v.ty)
     if name in ('min', 'max'):
         args, kwargs = args_of(run, n)
+        if not kwargs and len(args) == 1:
+            # max(xs) / min(xs): an element of xs that bounds all of them;
+            # ValueError on an empty sequence
+            src = run.as_list(run.unalias(args[0]))
+            if src.ty.elem is not TInt:
+                raise Unsupported('min/max of a list of %s' % src.ty.elem)
+            arr, ln = ex.list_arr(src), ex.list_len(src)
+            run.implicit(ln > 0, 'ValueError', n)
+            r = ex.fresh('mx', TInt)
+            at = z3.Int(run.S.fresh_name('mxi'))
+            j = z3.Int(run.S.fresh_name('mxj'))
+            st.assume(z3.And(0 <= at, at < ln, z3.Select(arr, at) == r.t))
+            bound = (z3.Select(arr, j) <= r.t) if name == 'max' \
+                else (z3.Select(arr, j) >= r.t)
+            st.assume(z3.ForAll([j], z3.Implies(
+                z3.And(0 <= j, j < ln), bound)))
+            return r
         if kwargs or len(args) < 2:
             raise Unsupported('min/max over iterable or with key')
         acc = ex.as_v(st, args[0])
@@ -991,7 +1008,43 @@ def apply_contract(
             posts = c.exc_ensures.get(exc, [])
             assume_posts(run, fr, posts, old, None, c)
             raise PyExc(exc)
-    assume_posts(run, fr, c.ensures, old, res, c)
+    # final(x): the value a by-reference (list) argument has after the
+    # call -- a fresh value, constrained by the postconditions, written back
+    # to the caller's variable
+    finals: dict[str, Any] = {}
+    writeback: list[tuple[Any, Any]] = []
+    text_all = ' '.join(c.ensures)
+    pnames = [a.arg for a in node.args.posonlyargs + node.args.args]
+    if pnames and pnames[0] == 'self':
+        pnames = pnames[1:]
+    for pn, ts in c.params.items():
+        if 'final(%s)' % pn not in text_all:
+            continue
+        arg_ast = None
+        if isinstance(site, ast.Call):
+            if pn in pnames and pnames.index(pn) < len(site.args):
+                arg_ast = site.args[pnames.index(pn)]
+            for kw in site.keywords:
+                if kw.arg == pn:
+                    arg_ast = kw.value
+        if arg_ast is None or not isinstance(
+            arg_ast, (ast.Name, ast.Attribute, ast.Subscript),
+        ):
+            raise Unsupported(
+                'final(%s): the argument at the call site is not a variable'
+                % pn)
+        nv = ex.fresh('final_' + pn, run.p.tenv.parse(ts))
+        ex.known(st, nv)
+        finals[pn] = nv
+        writeback.append((arg_ast, nv))
+    saved_fl = getattr(run, 'final_locs', None)
+    run.final_locs = finals if finals else saved_fl
+    try:
+        assume_posts(run, fr, c.ensures, old, res, c)
+    finally:
+        run.final_locs = saved_fl
+    for arg_ast, nv in writeback:
+        run.lv_write(run.resolve(arg_ast), nv)
     if run.st.qf.check() == z3.unsat:
         raise Unsupported(
             'the assumed postcondition of %s contradicts the path '
